@@ -95,6 +95,9 @@ func (rn *runner) runParamsOnce(c *Case, fresh bool) {
 			case "recycle":
 				ctx.Destroy()
 				ctx = types.NewContext()
+			case "delset":
+				ctx.Delete(op.Key)
+				ctx.Set(op.Key2, op.Val)
 			case "stale": // a late writer touches the context after it went back to the pool
 				old := ctx
 				ctx.Destroy()
@@ -104,7 +107,7 @@ func (rn *runner) runParamsOnce(c *Case, fresh bool) {
 				panic("unknown params op " + op.Op)
 			}
 		})
-		o := obj("op", js(op.Op), "key", js(op.Key), "val", js(op.Val), "n", jint(op.N))
+		o := obj("op", js(op.Op), "key", js(op.Key), "val", js(op.Val), "n", jint(op.N), "key2", js(op.Key2))
 		rn.emit(obj("ev", js("pop"), "o", o, "res", js(res)))
 		for _, k := range c.Keys {
 			rn.pobs(ctx, k)
